@@ -45,6 +45,8 @@ def rto_cases(draw, tier="quick"):
          "prior_reassigned": draw(st.sampled_from([False, False, True])),
          # the likelihoods may all be built on ONE model object (same A, e.g. two data sets of the same experiment)
          "shared_model": draw(st.sampled_from([False, False, True])),
+         # memory layout of the model matrix and the data vectors
+         "layout": draw(st.sampled_from(gen.LAYOUTS)),
          # integer-typed variance vectors (noise variances written as ints)
          "int_vars": draw(st.sampled_from([False, False, False, True]))}
     if c["shared_model"] and len(liks) > 1:
@@ -105,7 +107,7 @@ def build_rto_target(c):
         if c.get("shared_model") and shared is not None:
             model = shared
         elif lk["backing"] == "matrix":
-            model = cuqi.model.LinearModel(Am)
+            model = cuqi.model.LinearModel(gen.relayout(Am, c.get("layout", "plain")))
         else:
             model = cuqi.model.LinearModel((lambda M: (lambda v: M @ v))(Am), (lambda M: (lambda w: M.T @ w))(Am), range_geometry=m, domain_geometry=n)
         shared = model
@@ -121,7 +123,7 @@ def build_rto_target(c):
         ys.append(cuqi.distribution.Gaussian(Ax, **nkw, geometry=m, name=f"y{i}"))
         parts.append((Am, np.linalg.inv(Se), A(lk["data"])))
     J = cuqi.distribution.JointDistribution(*ys, x)
-    target = J(**{f"y{i}": A(lk["data"]) for i, lk in enumerate(c["liks"])})
+    target = J(**{f"y{i}": gen.relayout(A(lk["data"]), c.get("layout", "plain")) for i, lk in enumerate(c["liks"])})
     Lam = Pinv + sum(Am.T @ Gi @ Am for Am, Gi, b in parts)
     rhs = Pinv @ mu + sum(Am.T @ Gi @ b for Am, Gi, b in parts)
     return target, Lam, rhs, mu, parts
